@@ -898,7 +898,11 @@ def run_all(ctx):
                 "input must be unchanged and the profile restored), bystander tables derived from the input "
                 "(transpose, sort_order, filter copy, copy) and in-place changes of the RESULT must leave input and "
                 "bystanders unchanged and answering by-ID lookups, documented refusals leave the input unchanged and "
-                "coherent, the first calls of the run are repeated at its end. distinct = distinct (vectors|table, n, axis, mode, "
+                "coherent, the first calls of the run are repeated at its end and in child interpreters with other "
+                "PYTHONHASHSEEDs; ID texts shared between the two axes (some / all / prefix-swapped), NFC vs NFD spellings, "
+                "U+2028/U+0085, '%' and leading '\"' in IDs, by_id / with_replacement given as np.bool_ or 0/1, a Generator "
+                "object re-used for a second call, warnings turned into errors under the default profile, tables with "
+                ">512 IDs on an axis, degenerate shapes 0xM / Nx0 / 0x0. distinct = distinct (vectors|table, n, axis, mode, "
                 "script|seed); non-trivial = some vector reaches n (kernel) / some vector on the axis is non-zero")
     ctx.trusted = ["numpy Generator: choice(total, n, replace=False) returns n distinct positions below total, uniformly; "
                    "multinomial(n, p) returns naturals summing to n, zero where p is zero; shuffle permutes uniformly "
@@ -934,10 +938,10 @@ def run_all(ctx):
     ctx.exhaustive = False
     unbiased_means(ctx, impls, 1500 if ctx.quick() else 20000)
     with_replacement_kernel(ctx, impls, 300 if ctx.quick() else 5000)
-    for _ in range(1500 if ctx.quick() else 100000):
+    for _ in range(1500 if ctx.quick() else 60000):
         random_kernel(ctx, impls)
     # tables
-    n_tables = 600 if ctx.quick() else 12000
+    n_tables = 600 if ctx.quick() else 6000
     for i in range(n_tables):
         rng = ctx.rng
         spec = gen_count_spec(rng, 6, 6) if ctx.quick() or rng.random() < 0.7 else gen_count_spec(rng, 12, 12)
